@@ -131,6 +131,9 @@ def cases(draw, tier):
     cfg["pretty"] = int(not has_record_line and draw(st.integers(0, 99)) < 30)
     # lock records (locked / waiting / unlocked) shown as well, live and in the replay
     cfg["debug_locks"] = int(not has_record_line and not cfg["pretty"] and draw(st.integers(0, 99)) < 20)
+    # the log follower's "is it still being built?" probe delayed by 15 ms (LD_PRELOAD shim): whatever a script writes
+    # last, just before it exits, then falls between the follower's final read and that probe
+    cfg["probe_delay_us"] = 15000 if draw(st.integers(0, 99)) < 15 else 0
     cfg["roots2"] = None
     if not has_record_line and draw(st.integers(0, 99)) < 50:
         pick = [t for t in targets if draw(st.integers(0, 99)) < 40] or [top]
@@ -337,7 +340,17 @@ def run_case(case, tier):
         pretty = bool(cfg.get("pretty"))
         dl = ["--debug-locks"] if cfg.get("debug_locks") else []
         argv = ["redo", "-j%d" % cfg["jobs"], "--pretty" if pretty else "--no-pretty"] + dl + cfg["roots"]
-        res = runner.run_cmd(disk, argv, cwd="", env_extra={"REDO_PRETTY": "1"} if pretty else {})
+        env1 = {"REDO_PRETTY": "1"} if pretty else {}
+        if cfg.get("probe_delay_us"):
+            from .. import sut
+            ctr = os.path.join(disk.ctl, "ctr")
+            with open(ctr, "wb") as f:
+                f.write(b"\0" * 4096)
+            env1.update({"LD_PRELOAD": os.path.join(engine.VERIF, "shim", "verifshim.so"),
+                         "RV_SHIM_EXE": os.path.realpath(os.path.join(sut.BIN_DIR, "redo")), "RV_SHIM_CTR": ctr,
+                         "RV_SHIM_ROOT": disk.root, "RV_SHIM_PROBE_DELAY_US": str(cfg["probe_delay_us"])})
+            out.events["c18:follower-lock-probe-delayed(15 ms)"] += 1
+        res = runner.run_cmd(disk, argv, cwd="", env_extra=env1)
         out.commands += 1
         ex, calls, args, exits = hist.parse_trace(disk.take_trace())
         out.scripts += len(ex)
